@@ -302,7 +302,7 @@ var (
 	errSentCustom  = &cErr{"c11 custom sentinel"}
 	errSentDupText = errors.New("c11 sentinel A") // same text as errSentA, not registered
 
-	harnessSentinels = []error{errSentA, errSentB, errSentEmpty, errSentPercent, errSentWrap, errSentCustom}
+	harnessSentinels   = []error{errSentA, errSentB, errSentEmpty, errSentPercent, errSentWrap, errSentCustom}
 	frameworkSentinels = []error{
 		gen.ErrIncorrect, gen.ErrTimeout, gen.ErrUnsupported, gen.ErrUnknown, gen.ErrNameUnknown, gen.ErrNotAllowed,
 		gen.ErrProcessUnknown, gen.ErrProcessTerminated, gen.ErrMetaUnknown, gen.ErrApplicationUnknown, gen.ErrTaken,
